@@ -11,7 +11,7 @@ EXPLANATION = (
     "absorb the token). R5.2 the flag is monotone: it is assigned false only before the loop, every other write is true "
     "(`--` seen / trailing_var_arg). R5.3 tail values are pushed verbatim (to_value_os().to_owned(), no lossy conversion) "
     "and R5.4 the dont_delimit_trailing_values exemption in react covers every value index at or after trailing_idx (a "
-    "threshold comparison, not equality with one index); R5.5 values injected for an empty occurrence (default_missing_vals) are not treated as trailing (trailing_idx reset before the injection). R5.6 positional counter after the escape: the counter jumps to the last positional only on the trailing_values edge; the allow_missing_positional look-ahead (`missing_pos`) is disabled once trailing_values holds; every rejection of a token in Parser::parse as an unknown argument sits on the !trailing_values edge (tail tokens are never `unknown`, in particular a `last` positional accepts them). `contains_last` is existential over all arguments (any(get_arguments|get_positionals, is_last_set)), not a property of one particular positional. R5.7 the trailing index is first-wins: ArgMatcher::pending_values_mut records trailing_idx only if none is recorded yet (Option::get_or_insert / a write guarded by is_none) with the current number of pending values, on the trailing_values edge — it marks where the tail STARTS. NOT decided: the rest of the positional-counter arithmetic, byte equality for all tails."
+    "threshold comparison, not equality with one index); R5.5 values injected for an empty occurrence (default_missing_vals) are not treated as trailing (trailing_idx reset before the injection). R5.6 positional counter after the escape: the counter jumps to the last positional only on the trailing_values edge; the allow_missing_positional look-ahead (`missing_pos`) is disabled once trailing_values holds; every rejection of a token in Parser::parse as an unknown argument sits on the !trailing_values edge (tail tokens are never `unknown`, in particular a `last` positional accepts them). `contains_last` is existential over all arguments (any(get_arguments|get_positionals, is_last_set)), not a property of one particular positional. R5.7 the trailing index is first-wins: ArgMatcher::pending_values_mut records trailing_idx only if none is recorded yet (Option::get_or_insert / a write guarded by is_none) with the current number of pending values, on the trailing_values edge — it marks where the tail STARTS. R5.8 dont_delimit_trailing_values is a global setting and _propagate_subcommand hands global settings down at every depth. R5.9 the only thing that can make `--` a value is allow_hyphen_values of the pending argument. NOT decided: the rest of the positional-counter arithmetic, byte equality for all tails."
 )
 TRUSTED = ["rustc MIR", "clapfacts", "edge-dominance on the MIR CFG"]
 ASSUMPTIONS = ["PendingArg::trailing_idx is handed unchanged to react by resolve_pending (checked: C02/C06 react call-site census)"]
@@ -186,3 +186,21 @@ def run(ctx):
     for c in goi:
         res.check(has_bool(pv, c.bb, "T", r"^trailing_values$") and re.fullmatch(r"len\(.*\.raw_vals\)", expr(pv, c.args[1])) is not None, "R5.7", "trailing-index-value", c.where(),
                   "trailing_idx = number of values already pending, only when trailing_values", "trailing_idx recorded as %s under %s" % (expr(pv, c.args[1])[:60], guard_strs(pv, c.bb)))
+
+    # ---- R5.8 the trailing exemption holds at every level: the setting is global and global settings are handed down at every depth
+    dd = fx.body("clap_builder::builder::command::Command::dont_delimit_trailing_values")
+    used = sorted(set(c.callee_q.rsplit("::", 1)[1] for c in dd.calls() if c.callee_q and "Command::" in c.callee_q))
+    res.check(used == ["global_setting", "unset_global_setting"], "R5.8", "dont-delimit-is-global", dd.where(), "dont_delimit_trailing_values sets/unsets a GLOBAL setting",
+              "dont_delimit_trailing_values uses %s: the setting is documented to propagate to all subcommands, with a local setting the tail given to a subcommand is split at the delimiter" % used)
+    pg = fx.body("clap_builder::builder::command::Command::_propagate_subcommand")
+    wrote = {}
+    for f in ("settings", "g_settings"):
+        for i, s_ in writes_field(pg, f):
+            if s_["rv"]["k"] == "use":
+                wrote[f] = expr(pg, s_["rv"]["op"])
+    res.check(wrote.get("settings") == "bitor(sc.settings,self.g_settings)" and wrote.get("g_settings") == "bitor(sc.g_settings,self.g_settings)", "R5.8", "global-settings-handed-down", pg.where(),
+              "a subcommand receives the parent's global settings both as settings and as its own global settings", "_propagate_subcommand writes %s: global settings stop at the first subcommand level" % wrote)
+    # ---- R5.9 `--` is a value only for a pending argument that accepts hyphen values (nothing else exempts it from being the escape)
+    escq = sorted(set(c.callee_q.rsplit("::", 1)[1] for c in pp.calls() if not sp_macro(c.sp) and c.callee_q and c.callee_q.startswith("clap_builder::") and has_bool(pp, c.bb, "T", r"^is_escape\(")))
+    res.check(set(escq) <= {"index", "is_allow_hyphen_values_set", "start_trailing"} and "is_allow_hyphen_values_set" in escq, "R5.9", "escape-exemption-only-hyphen-values", pp.where(),
+              "on `--`: only allow_hyphen_values of the pending argument can make it a value", "on the `--` token Parser::parse also consults %s: `--` is swallowed as a value in more situations and positional-only mode never starts" % [q for q in escq if q not in ("index", "is_allow_hyphen_values_set", "start_trailing")])
